@@ -172,7 +172,19 @@ def genC17Cases (tier : String) (seed : Nat) : Array Case := Id.run do
       if i % 4 = 0 then genC01 { suffixes := false, maxDepth := 3, maxComps := 5 } rng
       else if i % 4 = 1 then genSupC02 2 rng
       else if i % 4 = 2 then genNestedSup { depth := 1, pairs := true, nestedPairs := true } rng
-      else genNestedSup { depth := 1, pairs := false, nestedPairs := true, maxSimple := 2 } rng
+      else
+        -- an annotated nested component whose statement contains a pair combination: the
+        -- operator node over the expanded statements carries the component's annotation
+        (do
+          let g : GS Stmt := do
+            let outer ← genFlatParts (← liftG (range 1 3)) 1
+            let inner ← genFlatParts (← liftG (range 1 2)) 0
+            let t ← genGTree {} (← liftG (range 2 3))
+            let sym ← liftG (pick (Sym.nestables.filter (fun s => !s.isProperty)))
+            let anno ← liftG (pick ["consequence=sanction", "ctx=y", "type=x"])
+            pure (.mk (outer ++ [.nested { sym := sym, anno := some anno.toList } (.mk (inner ++ [.pairs t]))]))
+          let (s, _) ← g.run 0
+          pure s) rng
     rng := rng'
     for v in [0:32] do
       out := out.push (visCase s!"c17-{i}-{v}" (#["simple", "nested", "pairs", "pairs-inside-nested"].getD (i % 4) "") s v)
